@@ -11,6 +11,7 @@ from __future__ import annotations
 
 import json
 import random
+import threading
 
 from . import vtime
 from .common import Machinery, Report, import_redress, seed
@@ -55,6 +56,10 @@ BREAKER_PROGRAMS = [
     ("admission races a failure that opens", BCFG1, [], [[A(1)], [F(1)]]),
     ("probe then settle vs probe", BCFG1, [F(0)], [[A(2), OK(2)], [A(2)]]),
     ("failure then admission vs failure", BCFG, [F(0)], [[F(1), A(1)], [F(1)]]),
+    # time passes while a thread is pre-empted: a whole open -> probe -> close cycle by others
+    ("racing failures while a probe cycle completes", BCFG, [F(0)], [[F(1)], [F(1)], [A(4), OK(4)]]),
+    ("failure races a probe cycle (threshold 1)", BCFG1, [], [[F(1)], [F(1)], [A(4), OK(4)]]),
+    ("probe admission races failure and a later probe", BCFG1, [F(0)], [[A(2), F(2)], [A(5)], [A(5)]]),
 ]
 
 
@@ -116,6 +121,7 @@ class _Exec:
         import_redress()
         self.comp, self.cfg, self.setup, self.programs = comp, cfg, setup, programs
         self.now = 0
+        self.tls = threading.local()
         self.clock = vtime.VClock()
         vtime.set_active(self.clock)
         if comp == "breaker":
@@ -128,7 +134,8 @@ class _Exec:
                 recovery_timeout_s=cfg["R"] * vtime.TICK,
                 trip_on={ErrorClass[k] for k in cfg["trip"]},
                 class_thresholds={ErrorClass[k]: n for k, n in cfg["cthr"].items() if n > 0},
-                clock=lambda: (vtime.BASE_TICKS + self.now) * vtime.TICK)
+                # every operation reads the instant it was issued at, whichever thread runs meanwhile
+                clock=lambda: (vtime.BASE_TICKS + getattr(self.tls, "now", self.now)) * vtime.TICK)
         else:
             import redress.budget as mod
             self.obj = mod.Budget(max_retries=cfg["max"], window_s=cfg["W"] * vtime.TICK)
@@ -150,6 +157,7 @@ class _Exec:
 
     def apply(self, op: dict) -> dict:
         self.now = op["t"]
+        self.tls.now = op["t"]
         self.clock.set_now(op["t"]) if self.clock.now <= op["t"] else None
         if self.comp == "breaker":
             o = dict(op, allowed=True, ev="-")
